@@ -75,6 +75,19 @@ pub fn run_c03(case: &Value, em: &mut Emitter) {
         // the same map written into a sink that accepts 1..4096 bytes per call
         let cap = [1usize, 7, 64, 4096][(p1["ntok"].as_u64().unwrap_or(0) % 4) as usize];
         em.emit("encode", json!({"how": how, "p1": p1, "via": "short_sink"}), encode_out_short(&d, cap));
+        // a sink that FAILS at byte `at` (the first byte, the middle, the last byte): to_writer must report the failure --
+        // Ok(()) means the sink holds the complete document
+        if let Ok(full) = crate::maps::to_bytes(&d) {
+            let len = full.len();
+            for at in [0usize, len / 2, len.saturating_sub(1)] {
+                let out = guard(|| {
+                    let mut sink = FailingSink { taken: vec![], fail_at: at };
+                    let res = match &d { DecodedMap::Regular(m) => m.to_writer(&mut sink), DecodedMap::Hermes(h) => h.to_writer(&mut sink), DecodedMap::Index(i) => i.to_writer(&mut sink) };
+                    json!({"k": "ok", "res": if res.is_ok() { "ok" } else { "err" }, "delivered": sink.taken.len(), "prefix_ok": full.starts_with(&sink.taken)})
+                });
+                em.emit("encode_fail", json!({"how": how, "at": at, "len": len}), out);
+            }
+        }
         // maps produced by rewrite / flatten / adjust_mappings
         match &d {
             DecodedMap::Regular(sm) => {
@@ -104,6 +117,19 @@ pub fn run_c03(case: &Value, em: &mut Emitter) {
             DecodedMap::Hermes(_) => {}
         }
     }
+}
+
+/// accepts bytes up to position `fail_at`, then every write fails (an error, not a short write)
+struct FailingSink { taken: Vec<u8>, fail_at: usize }
+impl std::io::Write for FailingSink {
+    fn write(&mut self, buf: &[u8]) -> std::io::Result<usize> {
+        let room = self.fail_at.saturating_sub(self.taken.len());
+        if room == 0 { return Err(std::io::Error::new(std::io::ErrorKind::Other, "sink full")); }
+        let n = room.min(buf.len());
+        self.taken.extend_from_slice(&buf[..n]);
+        Ok(n)
+    }
+    fn flush(&mut self) -> std::io::Result<()> { Ok(()) }
 }
 
 /// random well-formed flat model (no range tokens: those are C07)
